@@ -23,7 +23,9 @@ harness/toy_ptycho.c09_recon_checks.
 Every function returns [(key, what, replay, found_input)] and updates ctx coverage."""
 from __future__ import annotations
 
+import copy
 import gc
+import re
 from fractions import Fraction
 
 import numpy as np
@@ -328,13 +330,172 @@ OPT_POOL = [
 ]
 
 
-def _kw(b, lt, opt=None):
+# learning-rate SCHEDULER settings of the determinism / reset runs (round 8): every scheduler type the library offers
+# ("exp"/"gamma", "linear", "cyclic", "plateau", "none"), each in the form whose shape is derived from the run
+# (`num_iters`, or the optimiser's learning rate) and in the form with explicit numbers; one form per MODEL (object /
+# probe / dataset get different ones in one run), dealt from a shuffled deck so that a quick run sees every form.
+# (name, maker(rng) -> the model's scheduler dictionary | None = no entry for the model)
+SCHED_FORMS = [
+    ("exp-factor", lambda r: {"type": "exp", "factor": r.choice([0.01, 0.05, 0.3])}),       # gamma = factor**(1/num_iters)
+    ("exp-default", lambda r: {"type": r.choice(["exp", "gamma"])}),                          # factor 0.01 over num_iters
+    ("exp-gamma", lambda r: {"type": r.choice(["exp", "gamma"]), "gamma": r.choice([0.5, 0.7, 0.95])}),
+    ("linear-horizon", lambda r: r.choice([{"type": "linear"}, {"type": "linear", "start_factor": 0.3}])),  # total_iters = num_iters
+    ("linear-explicit", lambda r: {"type": "linear", "total_iters": r.choice([1, 2, 4]), "start_factor": r.choice([0.25, 0.5])}),
+    ("cyclic-default", lambda r: {"type": "cyclic", "step_size_up": r.choice([1, 2])}),       # base / max lr from the optimiser's lr
+    ("cyclic-explicit", lambda r: {"type": "cyclic", "base_lr": 1e-3, "max_lr": r.choice([5e-3, 2e-2]), "step_size_up": 1,
+                                   "step_size_down": 2, "mode": r.choice(["triangular", "triangular2"])}),
+    ("plateau-default", lambda r: {"type": "plateau"}),
+    ("plateau-explicit", lambda r: {"type": "plateau", "patience": 0, "cooldown": 0, "factor": 0.5, "threshold": 0.9}),
+    ("none", lambda r: {"type": "none"}),
+    ("absent", lambda r: None),
+]
+# the ways a run is repeated "after a reset" (the object keeps optimiser / scheduler parameters: handing them over
+# again is optional)
+WAY_ALL = "reconstruct(reset=True, optimizer_params, scheduler_params)"
+WAY_NONE = "reconstruct(reset=True)"
+WAY_OPT = "reconstruct(reset=True, optimizer_params)"
+WAY_SCHED = "reconstruct(reset=True, scheduler_params)"
+WAY_RR = "reset_recon(); reconstruct()"
+WAY_RR_ALL = "reset_recon(); reconstruct(optimizer_params, scheduler_params)"
+WAYS_STRAY = [WAY_RR, WAY_SCHED, WAY_RR_ALL, WAY_OPT]      # after the stray reset_recon() calls, cycled
+
+
+def _deal_sched(r, deck, models):
+    """one scheduler form per model, from the deck (refilled with a fresh shuffle when empty)"""
+    forms, sched = {}, {}
+    for m in models:
+        if not deck:
+            deck.extend(r.sample(SCHED_FORMS, len(SCHED_FORMS)))
+        name, mk = deck.pop()
+        forms[m] = name
+        d = mk(r)
+        if d is not None:
+            sched[m] = d
+    return forms, sched
+
+
+def _kw(b, lt, opt=None, sched=None):
     from . import toy_ptycho as tp
-    return dict(optimizer_params=tp.OPT if opt is None else opt, batch_size=b, constraints=tp.NO_ORTHO, loss_type=lt)
+    kw = dict(optimizer_params=tp.OPT if opt is None else opt, batch_size=b, constraints=tp.NO_ORTHO, loss_type=lt)
+    if sched:
+        kw["scheduler_params"] = copy.deepcopy(sched)       # the setter completes the dictionary it is given
+    return kw
 
 
 def _hist(pt):
     return [float(x) for x in pt._iter_losses], [float(x) for x in pt._iter_val_losses]
+
+
+def _hist3(pt):
+    return _hist(pt) + ({k: [float(x) for x in v] for k, v in pt._iter_lrs.items()},)
+
+
+def _apply_way(B, way, iters, b, lt, opt, sched):
+    """repeat the run on B after a reset performed in the given way"""
+    full = _kw(b, lt, opt, sched)
+    bare = {k: v for k, v in full.items() if k not in ("optimizer_params", "scheduler_params")}
+    if way in (WAY_RR, WAY_RR_ALL):
+        B.reset_recon()
+        B.reconstruct(num_iters=iters, **(bare if way == WAY_RR else full))
+    elif way == WAY_ALL:
+        B.reconstruct(num_iters=iters, reset=True, **full)
+    elif way == WAY_NONE:
+        B.reconstruct(num_iters=iters, reset=True, **bare)
+    elif way == WAY_OPT:
+        B.reconstruct(num_iters=iters, reset=True, **{k: v for k, v in full.items() if k != "scheduler_params"})
+    elif way == WAY_SCHED:
+        B.reconstruct(num_iters=iters, reset=True, **{k: v for k, v in full.items() if k != "optimizer_params"})
+    else:
+        raise KeyError(way)
+
+
+LR_TOL = 1e-9
+
+
+def _cmp_hist(ref, got, iters, tol=1e-6):
+    """fresh run `ref` against the run after the reset `got` (losses, validation losses, lr histories):
+    (losses_differ, [models whose learning-rate history differs])"""
+    (la, va, ra), (lc, vc, rc) = ref, got
+    loss_bad = len(lc) != iters or len(la) != len(lc) or _rel(la, lc) > tol or len(vc) != len(va) or _rel(va, vc) > tol
+    lr_bad = [m for m in sorted(set(ra) | set(rc))
+              if m not in ra or m not in rc or len(ra[m]) != len(rc[m]) or _rel(rc[m], ra[m]) > LR_TOL]
+    return loss_bad, lr_bad
+
+
+def _way_case(rp, sched=None):
+    """one (configuration, scheduler settings, way) on NEW objects: the fresh run, then on a second object the run,
+    `run_on` further iterations, the reset in the given way and the run again.  Returns (problem | None, ref, got):
+    problem = ("raises", text) | ("differs", losses_differ, lr_models)"""
+    sched = rp["sched"] if sched is None else sched
+    opt = dict(OPT_POOL)[rp["optimisers"]]
+    scan, iters, b, lt = tuple(rp["scan"]), rp["iters"], rp["batch"], rp["loss_type"]
+    b_first = rp.get("batch_first", b)
+
+    def fresh():
+        return _build(scan, rp["seed"], val_ratio=rp["val_ratio"], val_mode=rp["val_mode"])
+
+    A = fresh()
+    A.reconstruct(num_iters=iters, **_kw(b, lt, opt, sched))
+    ref = _hist3(A)
+    B = fresh()
+    B.reconstruct(num_iters=iters, **_kw(b_first, lt, opt, sched))
+    try:
+        if rp.get("run_on"):
+            B.reconstruct(num_iters=rp["run_on"], **{**_kw(b_first, lt, opt), "optimizer_params": None})
+        _apply_way(B, rp["way"], iters, b, lt, opt, sched)
+    except Exception as e:  # noqa
+        return ("raises", "%s: %s" % (type(e).__name__, e)), ref, None
+    got = _hist3(B)
+    loss_bad, lr_bad = _cmp_hist(ref, got, iters)
+    return (("differs", loss_bad, lr_bad) if loss_bad or lr_bad else None), ref, got
+
+
+def _sched_reports(rp, forms, problem, ref, got, base_key):
+    """classify a failed repeat-after-reset: one report per model whose learning-rate history differs (key = way x
+    scheduler form of that model); a run that raises is isolated to the model(s) whose scheduler alone reproduces it;
+    loss histories that differ under identical learning rates keep the plain key"""
+    way, out = rp["way"], []
+    wkey = re.sub(r"[^a-z_=]+", "-", way.lower()).strip("-")
+    if problem[0] == "raises":
+        culprits = []
+        for m in rp["sched"]:
+            p1, _, _ = _way_case(rp, {m: rp["sched"][m]})
+            if p1 is not None:
+                culprits.append(m)
+        for m in culprits:
+            out.append(("toy-reset-scheduler/%s/%s" % (wkey, forms[m]),
+                        "the run repeated after a reset [%s] raises %s with the %s scheduler %s (alone) — the fresh run from "
+                        "the same seed gave losses %s" % (way, problem[1], m, rp["sched"][m], ref[0]),
+                        dict(rp, sched={m: rp["sched"][m]}, forms={m: forms[m]}), True))
+        if not culprits:
+            out.append(("toy-reset-raises", "the run repeated after a reset [%s] raises %s (schedulers %s); the fresh run gave "
+                        "losses %s" % (way, problem[1], rp["sched"], ref[0]), rp, True))
+        return out
+    _, loss_bad, lr_bad = problem
+    for m in lr_bad:
+        out.append(("toy-reset-scheduler/%s/%s" % (wkey, forms.get(m, "absent")),
+                    "after a reset [%s] the %s learning-rate history is %s, in the fresh run from the same seed %s (scheduler %s, "
+                    "%d iterations); losses after the reset %s / validation %s, fresh run %s / %s" % (
+                        way, m, got[2].get(m), ref[2].get(m), rp["sched"].get(m), rp["iters"], got[0], got[1], ref[0], ref[1]),
+                    rp, bool(loss_bad)))
+    if loss_bad and not lr_bad:
+        out.append((base_key, "the run repeated after a reset [%s] gives losses %s / validation %s, the fresh run from the same "
+                    "seed gave %s / %s (learning-rate histories agree; schedulers %s)" % (way, got[0], got[1], ref[0], ref[1], rp["sched"]),
+                    rp, True))
+    return out
+
+
+def replay_sched(rp):
+    """re-run one (configuration, scheduler settings, way of resetting) exactly"""
+    setup()
+    problem, ref, got = _way_case(rp)
+    print("way:", rp["way"], " schedulers:", rp["sched"])
+    print("fresh run      : losses %s  lrs %s" % (ref[0], ref[2]))
+    if got is not None:
+        print("after the reset: losses %s  lrs %s" % (got[0], got[2]))
+    if problem is None:
+        return []
+    return _sched_reports(rp, rp.get("forms", {}), problem, ref, got, "toy-reset-determinism")
 
 
 def _split_configs(r, quick):
@@ -789,6 +950,7 @@ def determinism_checks(ctx):
     TOL = 1e-6
     scans = [(3, 4), (4, 4), (2, 5)]
     nvar = 0
+    deck = []
     for (vr, vm) in _split_configs(r, ctx.quick):
         scan = r.choice(scans)
         n = scan[0] * scan[1]
@@ -797,13 +959,20 @@ def determinism_checks(ctx):
         bss = [x for x in _batch_sizes(r, ntrain, n) if x is not None]
         lts = LOSS_TYPES if not ctx.quick else r.sample(LOSS_TYPES, 2)
         for lt in lts:
+            from . import toy_ptycho as tp
             b = r.choice(bss)
             b2 = r.choice([x for x in bss if x != b])
             iters = 3
             oname, opt = OPT_POOL[nvar % len(OPT_POOL)]
+            # scheduler settings: one form per optimised model (round 8)
+            forms, sched = _deal_sched(r, deck, sorted(tp.OPT if opt is None else opt))
+            stray_way = WAYS_STRAY[(nvar + nvar // len(OPT_POOL)) % len(WAYS_STRAY)]
             ctx.dist("determinism/optimisers=%s" % oname)
-            rp = {"kind": "toy", "scan": list(scan), "batch": b, "batch2": b2, "seed": seed, "val_ratio": vr, "val_mode": vm,
-                  "loss_type": lt, "optimisers": oname}
+            for m, f in forms.items():
+                ctx.dist("determinism/scheduler=%s" % f)
+                ctx.dist("determinism/scheduler-on=%s" % m)
+            rp = {"kind": "toy-sched", "scan": list(scan), "batch": b, "batch2": b2, "seed": seed, "val_ratio": vr, "val_mode": vm,
+                  "loss_type": lt, "optimisers": oname, "sched": sched, "forms": forms, "iters": iters}
             nvar += 1
             ctx.dist("determinism/split=%s" % ("none" if vr == 0 else vm))
             ctx.dist("determinism/%s" % lt)
@@ -811,68 +980,77 @@ def determinism_checks(ctx):
             def fresh(rng=None):
                 return _build(scan, seed, rng=rng, val_ratio=vr, val_mode=vm)
 
+            def repeat(B, way, ref, base_key, count_key, bb=b, run_on=0, b_first=None):
+                """the run again on B after a reset in the given way, compared with the fresh run `ref`;
+                returns (B, ok) — B is rebuilt when the repeated run raised"""
+                case = dict(rp, way=way, batch=bb, run_on=run_on, **({} if b_first is None else {"batch_first": b_first}))
+                ctx.dist("determinism/reset-way=%s" % way)
+                ctx.count(count_key, nontrivial=True)
+                try:
+                    _apply_way(B, way, iters, bb, lt, opt, sched)
+                    got = _hist3(B)
+                    loss_bad, lr_bad = _cmp_hist(ref, got, iters, TOL)
+                    problem = ("differs", loss_bad, lr_bad) if loss_bad or lr_bad else None
+                except Exception as e:  # noqa
+                    problem, got = ("raises", "%s: %s" % (type(e).__name__, e)), None
+                    B = fresh()
+                    B.reconstruct(num_iters=iters, **_kw(b, lt, opt, sched))
+                if problem is None:
+                    return B, True
+                out.extend(_sched_reports(case, forms, problem, ref, got, base_key))
+                return B, False
+
             A = fresh()
-            A.reconstruct(num_iters=iters, **_kw(b, lt, opt))
-            la, va = _hist(A)
+            A.reconstruct(num_iters=iters, **_kw(b, lt, opt, sched))
+            refA = _hist3(A)
+            la, va, _ = refA
             stA = A.rng.bit_generator.state
             # (1) second object, same integer seed
             B = fresh()
-            B.reconstruct(num_iters=iters, **_kw(b, lt, opt))
-            lb, vb = _hist(B)
+            B.reconstruct(num_iters=iters, **_kw(b, lt, opt, sched))
+            lb, vb, rb = _hist3(B)
             ctx.count(("determinism", scan, b, vr, vm, lt), nontrivial=True)
             if _rel(la, lb) > TOL or _rel(va, vb) > TOL or len(va) != len(vb):
                 out.append(("toy-seed-determinism", "two runs from the same seed give different histories: losses %s vs %s, "
-                            "validation losses %s vs %s" % (la, lb, va, vb), rp, True))
+                            "validation losses %s vs %s (learning rates %s vs %s)" % (la, lb, va, vb, refA[2], rb), rp, True))
             # (2) same seed handed over as a fresh numpy Generator
             G = fresh(rng=np.random.default_rng(seed))
-            G.reconstruct(num_iters=iters, **_kw(b, lt, opt))
+            G.reconstruct(num_iters=iters, **_kw(b, lt, opt, sched))
             lg, vg = _hist(G)
             ctx.count(("determinism-generator", scan, b, vr, vm, lt), nontrivial=True)
             if _rel(la, lg) > TOL or _rel(va, vg) > TOL:
                 out.append(("toy-seed-determinism-generator", "rng=default_rng(seed) and rng=seed give different histories: %s vs %s"
                             % (lg, la), rp, True))
-            # (3) run on, then reset — several times in a row, with stray resets in between
+            # (3) run on, then reset — several times in a row, with stray resets in between; the reset is performed with
+            # everything handed over again (k = 0, 2) / after stray reset_recon() calls in one of WAYS_STRAY (k = 1)
             for k in range(2 if ctx.quick else 3):
                 B.reconstruct(num_iters=1 + k, **{**_kw(b, lt, opt), "optimizer_params": None})
                 if k == 1:
                     B.reset_recon()
                     B.reset_recon()
-                B.reconstruct(num_iters=iters, reset=True, **_kw(b, lt, opt))
-                lc, vc = _hist(B)
-                ctx.count(("reset", scan, b, vr, vm, lt, k), nontrivial=True)
-                if len(lc) != iters or _rel(la, lc) > TOL or len(vc) != len(va) or _rel(va, vc) > TOL:
-                    out.append(("toy-reset-determinism", "run after reset #%d gives losses %s / validation %s, the fresh run from "
-                                "the same seed gave %s / %s" % (k + 1, lc, vc, la, va), rp, True))
+                B, ok = repeat(B, stray_way if k == 1 else WAY_ALL, refA, "toy-reset-determinism",
+                               ("reset", scan, b, vr, vm, lt, k), run_on=1 + k)
+                if not ok:
                     break
                 if B.rng.bit_generator.state != stA:
                     out.append(("toy-reset-rng-state", "after reset #%d + the same run the numpy generator is in another state "
                                 "than after the fresh run" % (k + 1), rp, False))
                     break
-            # (3b) reset WITHOUT handing the optimiser parameters over again: reset_recon itself has to rebuild
+            # (3b) reset WITHOUT handing optimiser / scheduler parameters over again: reset_recon itself has to rebuild
             # optimisers / schedulers from the stored parameters
             B.reconstruct(num_iters=2, **{**_kw(b, lt, opt), "optimizer_params": None})
-            B.reconstruct(num_iters=iters, reset=True, **{**_kw(b, lt, opt), "optimizer_params": None})
-            le, ve = _hist(B)
-            ctx.count(("reset-keep-optimizer-params", scan, b, vr, vm, lt), nontrivial=True)
-            if len(le) != iters or _rel(la, le) > TOL or len(ve) != len(va) or _rel(va, ve) > TOL:
-                out.append(("toy-reset-determinism", "reconstruct(reset=True) without new optimizer_params gives losses %s / validation "
-                            "%s, the fresh run from the same seed gave %s / %s" % (le, ve, la, va), rp, True))
+            B, _ = repeat(B, WAY_NONE, refA, "toy-reset-determinism", ("reset-keep-optimizer-params", scan, b, vr, vm, lt), run_on=2)
             # (4) reconstruct(reset=True) with ANOTHER batch size == a fresh run with that batch size
             C = fresh()
-            C.reconstruct(num_iters=iters, **_kw(b2, lt, opt))
-            lc2, vc2 = _hist(C)
-            B.reconstruct(num_iters=iters, reset=True, **_kw(b2, lt, opt))
-            ld, vd = _hist(B)
-            ctx.count(("reset-batch-change", scan, b, b2, vr, vm, lt), nontrivial=True)
-            if len(ld) != iters or _rel(lc2, ld) > TOL or len(vd) != len(vc2) or _rel(vc2, vd) > TOL:
-                out.append(("toy-reset-batch-change", "reconstruct(reset=True, batch_size=%s) after runs with batch size %s gives %s / "
-                            "validation %s; a fresh run with batch size %s gives %s / %s" % (b2, b, ld, vd, b2, lc2, vc2), rp, True))
+            C.reconstruct(num_iters=iters, **_kw(b2, lt, opt, sched))
+            B, _ = repeat(B, WAY_OPT, _hist3(C), "toy-reset-batch-change", ("reset-batch-change", scan, b, b2, vr, vm, lt), bb=b2, b_first=b)
             # the split and the rng consumption do not depend on the batch size (model: schedule_draws_indep_batch)
             if C.rng.bit_generator.state != stA:
                 out.append(("schedule-correspondence", "runs with batch sizes %s and %s from one seed leave the numpy generator in "
                             "different states (the model's draws are independent of the batch size)" % (b, b2), rp, False))
-    ctx.sample({"kind": "toy-determinism", "last": rp, "loss_fresh": la, "val_fresh": va})
-    ctx.log("determinism / reset: %d configurations x (same seed, generator seed, resets in a row, batch change)" % nvar)
+    ctx.sample({"kind": "toy-determinism", "last": rp, "loss_fresh": la, "val_fresh": va, "lrs_fresh": refA[2]})
+    ctx.log("determinism / reset: %d configurations x (same seed, generator seed, resets in a row in %d ways, batch change), "
+            "scheduler forms per model dealt from %d" % (nvar, 2 + len(WAYS_STRAY), len(SCHED_FORMS)))
     return out
 
 
